@@ -669,3 +669,93 @@ def full_range_guard(ck, F, rule="FULL-RANGE"):
               "the DisplaceData::%s arm displaces the %s of a reference without testing `%s`: deleting row/column 1 (or the last one) "
               "turns the artificial end point of a whole-%s reference like B:B into #REF!" % (variant, variant.lower(), flag, "column" if variant == "Row" else "row"),
               *(b.loc(bad[0]) if bad else (f, l)), sample={"arm": variant, "flag": flag, "delta_reads": len(reads)})
+
+
+TAUTOLOGY_EXCEPT = {
+    # (caller, callee): reason
+    ("cut_paste::cf_range_part_update_for_cut", "ref_is_in_area"):
+        "the sqref parts of a conditional format belong to the sheet that owns the format, which the caller has already "
+        "matched with area.sheet; only the row/column containment is being asked",
+}
+
+
+def tautology(ck, F, rule="SELF-COMPARE", scope=("cut_paste", "actions", "move_formula")):
+    """A helper that compares its argument i with field f of its argument j is not called with argument i = (argument
+    j).f: that comparison is then always true and the check it implements is switched off."""
+    # 1. helpers and the (i, j, f) they compare
+    helpers = {}
+    for path in sorted(F.body_paths()):
+        h = F.heads[path]
+        if h.get("bkind") != "fn" or h["crate"] != "ironcalc_base":
+            continue
+        raw = F._raw.get(path, "")
+        if '"Eq"' not in raw and '"Ne"' not in raw:
+            continue
+        b = F.body(path)
+        if b.nargs < 2:
+            continue
+        for bi, si, s in b.stmts():
+            rv = s["rv"]
+            if rv["k"] != "bin" or rv["op"] not in ("Eq", "Ne"):
+                continue
+            for x, y in ((rv["a"], rv["b"]), (rv["b"], rv["a"])):
+                tx = b.trace(x)
+                if tx["kind"] != "arg":
+                    continue
+                py = op_place(y)
+                if py is None:
+                    continue
+                ty = b.trace(y)
+                pl = ty.get("place") if ty["kind"] == "place" else None
+                if pl is None:
+                    continue
+                pj = place_proj(pl)
+                if 1 <= pl["l"] <= b.nargs and pl["l"] != tx["local"] and len(pj) == 2 and pj[0][0] == "*" and pj[1][0] == "f":
+                    helpers.setdefault(path, set()).add((tx["local"], pl["l"], pj[1][2]))
+    ck.note("comparing_helpers", len(helpers))
+    n = 0
+    for path in sorted(F.body_paths()):
+        cs = set(F.calls.get(path, []))
+        hs = [hp for hp in helpers if hp in cs]
+        if not hs:
+            continue
+        b = F.body(path)
+        qn = b.qname.split("::", 1)[-1]
+        for bi, t in b.calls():
+            c = b.callee(t)
+            if c not in helpers:
+                continue
+            for (i, j, f) in sorted(helpers[c]):
+                if max(i, j) > len(t["args"]):
+                    continue
+                ai, aj = t["args"][i - 1], t["args"][j - 1]
+                ti = b.trace(ai)
+                rj = b.ref_target(aj)
+                if rj is None:
+                    tj = b.trace(aj)
+                    if tj["kind"] == "place":
+                        rj = {"l": tj["place"]["l"], "p": list(place_proj(tj["place"])) + [["*"]]}
+                    elif tj["kind"] == "arg":
+                        rj = {"l": tj["local"], "p": [["*"]]}
+                n += 1
+                same = False
+                if ti["kind"] == "place" and rj is not None:
+                    pi = ti["place"]
+                    pji = place_proj(pi)
+                    base = {"l": pi["l"], "p": pji[:-1]} if pji and pji[-1][0] == "f" and pji[-1][2] == f else None
+                    if base is not None:
+                        def norm(p):
+                            return (p["l"], tuple((e[0], e[2] if e[0] == "f" else None) for e in place_proj(p)))
+                        same = norm(base) == norm(rj) or norm(base) == norm({"l": rj["l"], "p": place_proj(rj) + [["*"]]}) or \
+                            (place_proj(base) and place_proj(base)[-1][0] == "*" and norm({"l": base["l"], "p": place_proj(base)[:-1]}) == norm(rj))
+                cn = F.qname_of(c).rsplit("::", 1)[-1]
+                exc = TAUTOLOGY_EXCEPT.get((qn, cn))
+                fl, ln = b.loc(bi)
+                if same and exc:
+                    ck.ob(rule, "%s|%s(arg%d = arg%d.%s)" % (qn, cn, i, j, f), True, "EXCEPTION: " + exc, nontrivial=False)
+                else:
+                    ck.ob(rule, "%s|%s(arg%d vs arg%d.%s)" % (qn, cn, i, j, f), not same,
+                          "%s calls %s with argument %d taken from argument %d's own `%s`: the comparison inside %s is always true, so cells of "
+                          "every other sheet at the same coordinates are treated as if they were in the area" % (qn, cn, i, j, f, cn), fl, ln,
+                          sample={"caller": qn, "helper": cn})
+    ck.note("helper_call_sites", n)
